@@ -408,4 +408,6 @@ def rebuild(op, args):
         return intop(op, *args)
     if op in ("lt", "le", "gt", "ge"):
         return cmp(op, *args)
+    if op == "unmont" and isinstance(args[0], T) and args[0].op == "mont":
+        return args[0].args[0]
     return mk(op, *args)
